@@ -1,5 +1,6 @@
 (* C02 — No unauthorised and no duplicate execution (statements only). *)
-From EAS Require Import Base Sched SchedInv SchedApi SchedProps SchedLog SchedOrder.
+From EAS Require Import Base Sched SchedInv SchedApi SchedProps SchedLog SchedOrder
+                        SchedExact SchedExact2 SchedExact3 SchedExact4.
 From Coq Require Import Sorted.
 
 (* In every reachable state the queue - the only place jobs are started from - holds exactly the
@@ -42,3 +43,143 @@ Theorem C02_starts_were_due :
     In (j, a) (cx s') -> a <= now s'.
 Proof. exact wake_starts_were_due. Qed.
 Print Assumptions C02_starts_were_due.
+
+(* ---- additions for props/C02.v -------------------------------------------------------------------
+   change the import line to:
+   From EAS Require Import Base Sched SchedInv SchedApi SchedProps SchedLog SchedOrder
+                           SchedExact SchedExact2 SchedExact3 SchedExact4.                            *)
+
+(* FRAME of the re-entrant core, every amount of fuel, no well-formedness needed: a call only appends to the log;
+   a job it does not start keeps its record; every start is a start of a queued job (or of the argument job of
+   add_job / exec_job) for the next-run time announced before the call, which was reached; a started job is not
+   due afterwards; the queue only shrinks (plus the argument of add_job) *)
+Theorem C02_core_frame :
+  forall E, (forall j k t, exists v, prod E j k t = Ok v /\ t < v) -> forall f,
+  (forall s s', set_timer E f s = Some s' -> CoreFrame NoA s s') /\
+  (forall s s', run_jobs E f s = Some s' -> CoreFrame NoA s s') /\
+  (forall s s', run_loop E f s = Some s' -> CoreFrame NoA s s') /\
+  (forall j s s', add_job E f j s = Some s' -> CoreFrame (eq j) s s') /\
+  (forall j s s', remove_job E f j s = Some s' -> CoreFrame NoA s s' /\
+     (forall i t a o, In (EExec i t a o) (new_events s s') -> In i (remove_first j (queue s)))) /\
+  (forall j t s s', jnext (jobs s j) = Some t -> t <= now s -> exec_job E f j t s = Some s' ->
+     CoreFrame (eq j) s s').
+Proof. exact core_frame. Qed.
+Print Assumptions C02_core_frame.
+
+(* a callable is started only while its job is RUNNING, for the next-run time announced before the operation,
+   and only when it is reached - or the operation itself (re-)arms this very job *)
+Theorem C02_exec_only_running :
+  forall E, (forall j k t, exists v, prod E j k t = Ok v /\ t < v) ->
+  forall fuel hs s o s' r, Inv s -> step_op E fuel hs s o = (s', r) -> r <> NoFuel ->
+  forall j t a oi, In (EExec j t a oi) (new_events s s') ->
+    t = now s /\ oi = opi s /\
+    ((jstatus (jobs s j) = Running /\ In j (queue s) /\ jnext (jobs s j) = Some a /\ a <= now s) \/
+     (o = OReset j /\ a = now s + jsecs (jobs s j) /\ a <= now s) \/ o = OResume j \/
+     (j = njobs s /\ r = Done /\ ((exists key, o = OOnce a key) \/ (exists key, o = OAt key)))).
+Proof. exact exec_only_running. Qed.
+Print Assumptions C02_exec_only_running.
+
+Theorem C02_starts_happen_now_and_not_early :
+  forall E, (forall j k t, exists v, prod E j k t = Ok v /\ t < v) ->
+  forall fuel hs s o s' r, Inv s -> step_op E fuel hs s o = (s', r) -> r <> NoFuel ->
+  forall j t a oi, In (EExec j t a oi) (new_events s s') -> t = now s /\ oi = opi s /\ a <= t.
+Proof. exact starts_were_due. Qed.
+Print Assumptions C02_starts_happen_now_and_not_early.
+
+(* at most once per announced next-run time: no operation (creation, control call, enable, wake-up) starts a
+   job twice, also across the nested run_jobs calls *)
+Theorem C02_no_job_twice_in_any_operation :
+  forall E, (forall j k t, exists v, prod E j k t = Ok v /\ t < v) ->
+  forall fuel hs s o s' r k, Inv s -> step_op E fuel hs s o = (s', r) -> r <> NoFuel ->
+    (count_exec k (new_events s s') <= 1)%nat /\
+    count_exec k (log s') = (count_exec k (new_events s s') + count_exec k (log s))%nat.
+Proof. intros E P fuel hs s o s' r k. exact (step_op_once_count E P fuel hs s o s' r k). Qed.
+Print Assumptions C02_no_job_twice_in_any_operation.
+
+(* non-interference: an operation neither changes nor starts a job it is not addressed to, unless that job was
+   RUNNING with a reached next-run time before the operation; and then the core changes it as execute() does *)
+Theorem C02_untouched_or_due :
+  forall E, (forall j k t, exists v, prod E j k t = Ok v /\ t < v) ->
+  forall fuel hs s o s' r k, Inv s -> step_op E fuel hs s o = (s', r) -> r <> NoFuel -> ~ op_K s o k ->
+  (~ started k (new_events s s') -> jobs s' k = jobs s k) /\
+  (started k (new_events s s') ->
+     jstatus (jobs s k) = Running /\ exists a, jnext (jobs s k) = Some a /\ a <= now s) /\
+  jstep (jobs s k) (jobs s' k).
+Proof. exact untouched_or_due. Qed.
+Print Assumptions C02_untouched_or_due.
+
+Theorem C02_others_untouched :
+  forall E, (forall j k t, exists v, prod E j k t = Ok v /\ t < v) ->
+  forall fuel hs s o s' r j k, Inv s -> op_addressee o = Some j -> k <> j ->
+    step_op E fuel hs s o = (s', r) -> r <> NoFuel ->
+    (jobs s' k = jobs s k /\ ~ started k (new_events s s')) \/
+    (jstatus (jobs s k) = Running /\ exists a, jnext (jobs s k) = Some a /\ a <= now s).
+Proof. exact others_untouched. Qed.
+Print Assumptions C02_others_untouched.
+
+(* the job an operation is addressed to is started by it only if the operation (re-)arms it *)
+Theorem C02_target_started_only_if_armed :
+  forall E, (forall j k t, exists v, prod E j k t = Ok v /\ t < v) ->
+  forall fuel hs s o s' r j, Inv s -> step_op E fuel hs s o = (s', r) -> r <> NoFuel -> op_K s o j ->
+    started j (new_events s s') -> exists a, op_A s o r j a.
+Proof. exact target_started. Qed.
+Print Assumptions C02_target_started_only_if_armed.
+
+Theorem C02_not_running_not_started :
+  forall E, (forall j k t, exists v, prod E j k t = Ok v /\ t < v) ->
+  forall fuel hs s o s' r j, Inv s -> jstatus (jobs s j) <> Running ->
+    step_op E fuel hs s o = (s', r) -> r <> NoFuel -> started j (new_events s s') ->
+    o = OReset j \/ o = OResume j \/ (is_creation o /\ j = njobs s /\ r = Done).
+Proof. exact not_running_not_started. Qed.
+Print Assumptions C02_not_running_not_started.
+
+(* once cancel() / pause() / stop() has returned the job is not running, the call itself did not start it ... *)
+Theorem C02_quiet_after_cancel :
+  forall E, (forall j k t, exists v, prod E j k t = Ok v /\ t < v) ->
+  forall fuel hs s s' j, Inv s -> step_op E fuel hs s (OCancel j) = (s', Done) ->
+    jstatus (jobs s' j) = Finished /\ ~ started j (new_events s s').
+Proof. exact quiet_after_cancel. Qed.
+Print Assumptions C02_quiet_after_cancel.
+
+Theorem C02_quiet_after_pause :
+  forall E, (forall j k t, exists v, prod E j k t = Ok v /\ t < v) ->
+  forall fuel hs s s' j, Inv s -> step_op E fuel hs s (OPause j) = (s', Done) ->
+    jstatus (jobs s' j) = Paused /\ jnext (jobs s' j) = None /\ ~ started j (new_events s s').
+Proof. exact quiet_after_pause. Qed.
+Print Assumptions C02_quiet_after_pause.
+
+(* ... and the next operation starts it again only if it is its own reset() / resume() *)
+Theorem C02_stopped_restarts_only_by_reset_resume :
+  forall E, (forall j k t, exists v, prod E j k t = Ok v /\ t < v) ->
+  forall fuel hs s o1 s1 o2 s2 r j, Inv s -> o1 = OCancel j \/ o1 = OPause j -> (j < njobs s)%nat ->
+    step E fuel hs s o1 = (s1, Done) -> step E fuel hs s1 o2 = (s2, r) -> r <> NoFuel ->
+    started j (new_events s1 s2) -> o2 = OReset j \/ o2 = OResume j.
+Proof. exact stopped_restarts_only_by_reset_resume. Qed.
+Print Assumptions C02_stopped_restarts_only_by_reset_resume.
+
+(* FINISHED (cancelled, or a one-shot job that has run) is final: never started again, in every history *)
+Theorem C02_finished_stays_finished :
+  forall E, (forall j k t, exists v, prod E j k t = Ok v /\ t < v) ->
+  forall fuel hs s o s' r j, Inv s -> jstatus (jobs s j) = Finished -> (j < njobs s)%nat ->
+    step_op E fuel hs s o = (s', r) -> r <> NoFuel ->
+    jstatus (jobs s' j) = Finished /\ ~ started j (new_events s s') /\ (j < njobs s')%nat.
+Proof. exact finished_stays_finished. Qed.
+Print Assumptions C02_finished_stays_finished.
+
+Theorem C02_finished_never_restarts :
+  forall E, (forall j k t, exists v, prod E j k t = Ok v /\ t < v) ->
+  forall fuel hs ops s s' rs j, Inv s -> jstatus (jobs s j) = Finished -> (j < njobs s)%nat ->
+    run E fuel hs s ops = (s', rs) -> ~ In NoFuel rs ->
+    jstatus (jobs s' j) = Finished /\ count_exec j (log s') = count_exec j (log s).
+Proof. exact finished_never_restarts. Qed.
+Print Assumptions C02_finished_never_restarts.
+
+(* a job whose creation call failed never executes: nothing was allocated, or the new job is finished and was not
+   started (and by C02_finished_never_restarts never will be) *)
+Theorem C02_failed_creation_never_runs :
+  forall E, (forall j k t, exists v, prod E j k t = Ok v /\ t < v) ->
+  forall fuel hs s o s' e, Inv s -> is_creation o -> step_op E fuel hs s o = (s', Raised e) ->
+    s' = s \/ (njobs s' = S (njobs s) /\ jstatus (jobs s' (njobs s)) = Finished /\
+               ~ started (njobs s) (new_events s s')).
+Proof. exact failed_creation_never_runs. Qed.
+Print Assumptions C02_failed_creation_never_runs.
